@@ -2195,6 +2195,17 @@ unsched(EV_P_ ev_periodic *w, int UNUSED(revents))
 	ECHS_NOTI_LOG("taking event off of schedule");
 	add_chkpnt(echs_task_owner(t->t));
 	ev_periodic_stop(EV_A_ w);
+	if (t->nsim) {
+		/* children still refer to T, just take it off the table,
+		 * the child watcher of the last one will come back here */
+		with (size_t i = get_task_slot(t->t->oid)) {
+			if (i < ztask_ht && task_ht[i].t == t) {
+				task_ht[i] = (struct tmap_s){0U, NULL};
+			}
+		}
+		w->reschedule_cb = NULL;
+		return;
+	}
 	free_task(t);
 	return;
 }
